@@ -12,7 +12,7 @@ run() { # name prop
   local name="$1" prop="$2"
   (cd "$S/repo" && go build ./... >/dev/null 2>&1) || { echo "SELFTEST $name: does not compile"; miss=$((miss+1)); return; }
   mkdir -p "$S/smt" "$S/rep"
-  out=$($V/bin/govc -repo "$S/repo" -spec $V/spec -prop "$prop" -tier quick -work "$S/smt" -evidence "$S/ev.json" -replays "$S/rep" -known $V/known_findings.txt 2>&1); rc=$?
+  out=$($V/bin/govc -repo "$S/repo" -spec $V/spec -prop "$prop" -tier quick -noreplay -work "$S/smt" -evidence "$S/ev.json" -replays "$S/rep" -known $V/known_findings.txt 2>&1); rc=$?
   n=$((n+1))
   if [ $rc -eq 1 ]; then echo "SELFTEST $name [$prop]: caught :: $(echo "$out" | grep -m1 '^FAILED' | cut -c1-160)"
   else echo "SELFTEST $name [$prop]: NOT CAUGHT (exit $rc)"; miss=$((miss+1)); fi
